@@ -3,18 +3,18 @@
    ginv (Proofs/Grid_proofs.v) is the invariant; ginv_readable spells it out clause by clause. *)
 From Coq Require Import ZArith List Bool Arith Lia.
 From Abm Require Import Base.Sx Grid.Overlap Grid.Grid Grid.Move Grid.Attack Grid.Vis Grid.AttackRun
-  Grid.Play Proofs.Grid_proofs Proofs.Move_proofs Proofs.Attack_proofs Proofs.Play_proofs.
+  Grid.Play Proofs.Grid_proofs Proofs.Move_proofs Proofs.Init_proofs Proofs.Attack_proofs Proofs.Play_proofs.
 Import ListNotations.
 Open Scope Z_scope.
 
 (* the invariant holds once the agents have been placed on an empty grid *)
 Theorem C03_inv_init : forall rows cols ov ags,
-  ov_sym (ov_symmetrise ov) -> Forall vitals_ok ags -> Forall (fun a => a_active a = true) ags ->
+  NoDup (map fst ov) -> Forall vitals_ok ags -> Forall (fun a => a_active a = true) ags ->
   Forall (fun a => match a_pos a with
                    | Some q => (0 <=? fst q) && (fst q <? rows) && (0 <=? snd q) && (snd q <? cols) = true
                    | None => True end) ags ->
   ginv (init_state rows cols ov ags).
-Proof. exact init_state_inv. Qed.
+Proof. exact init_state_inv_table. Qed.
 Print Assumptions C03_inv_init.
 
 (* every move operation (free, cross, drift; any agent, any action value) preserves it *)
